@@ -212,6 +212,19 @@ def c15_c(ctx: Ctx):
                     out.append(ctx.ok(R, fi, n, "the document sync function writes through the proxy obtained from create_doc_backup"))
                 else:
                     out.append(ctx.viol(R, fi, n, f"doc_sync is handed {stmt_key(b, 40)} instead of the backup proxy: document changes are neither gated by dry_run nor rolled back"))
+    # Project.clone itself must not write: in a dry run its only mutation is the (gated) copytree callable it is handed
+    cl = ctx.fn("signac.project:Project.clone")
+    eff, clo = ctx.effects.transitive([cl])
+    bad = [e for e in eff if e.kind in common.MUTATING_KINDS and e.fi.qual != cl.qual]
+    direct = [e for e in ctx.effects.direct(cl) if e.kind in common.MUTATING_KINDS]
+    k = cl.qual + "|effect-free"
+    if bad or direct:
+        e = (bad or direct)[0]
+        chain = common.call_chain(ctx, cl, e.fi.qual) or [cl.qual, e.fi.qual]
+        out.append(ctx.viol(R, e.fi, e.node, f"Project.clone can {e.prim} on its own (via {' -> '.join(c.split(':')[-1] for c in chain)}): sync_projects clones through it with the proxy's no-op "
+                            "copytree during a dry run, so this write happens in the destination although dry_run is set", construct=k, witness=chain))
+    else:
+        out.append(ctx.ok(R, cl, cl.node, f"apart from the copytree callable it is given, Project.clone performs no write ({len(clo)} functions in its closure)", construct=k))
     if not out:
         out.append(ctx.inc(R, None, None, "no instance", construct="c15c"))
     return out
@@ -304,6 +317,25 @@ def c15_d(ctx: Ctx):
             out.append(ctx.viol(R, None, None, f"signac/sync.py:{ci.node.lineno}: _dircmp_deep overrides phase3 but does not register it in methodmap for same_files/diff_files "
                                 f"(registered: {sorted(reg)}); filecmp.dircmp dispatches through methodmap, so the shallow phase3 of the base class is used and deep=True has no effect",
                                 construct=k))
+    # every attribute of the comparator that phase3 computes and the file walk reads must be remapped to the deep phase3
+    if ci is not None:
+        read = {n.attr for n in body_nodes(sjw) if isinstance(n, ast.Attribute) and isinstance(n.value, ast.Name) and n.value.id == "diff"}
+        phase3_attrs = {"same_files", "diff_files", "funny_files"}
+        reg2 = set()
+        for st in ci.node.body:
+            if isinstance(st, ast.Assign):
+                for t in st.targets:
+                    if isinstance(t, ast.Subscript) and canon(t.value) == "methodmap":
+                        v = ctx.fold(t.slice, None, ci.module)
+                        if isinstance(v, str):
+                            reg2.add(v)
+        unmapped = sorted((read & phase3_attrs) - reg2)
+        k3 = SJW + "|phase3-attrs"
+        if unmapped:
+            out.append(ctx.viol(R, sjw, sjw.node, f"the file walk reads diff.{unmapped[0]}, which filecmp computes in phase3 but which _dircmp_deep does not remap: the first access runs the base class's "
+                                "shallow comparison and fills diff_files as well, so deep=True silently compares by size and mtime", construct=k3))
+        else:
+            out.append(ctx.ok(R, sjw, sjw.node, f"phase3 results read by the file walk ({sorted(read & phase3_attrs)}) are all remapped to the content comparison", construct=k3))
     # exclude is tested before every copy in the file walk
     loops = [n for n in body_nodes(sjw) if isinstance(n, ast.For) and canon(n.iter).endswith((".left_only", ".diff_files"))]
     if len(loops) < 2:
@@ -426,6 +458,8 @@ def c15_f(ctx: Ctx):
                 out.append(ctx.ok(R, sp, a, "jobs are filtered by membership of their id in the selection"))
             else:
                 out.append(ctx.viol(R, sp, a, f"selection filter `{sel[0]}` lets jobs through that are not selected (e.g. when the selection is empty)"))
+    from .lints import sentinel_discipline
+    out += sentinel_discipline(ctx, R, [(SP, "selection", "an empty selection (no job chosen, a cursor that matches nothing) is a selection: treated as 'not given' every source job is cloned / synchronised")])
     # parallel vs sequential
     inner = sp.nested.get("_clone_or_sync")
     par = [n for n in body_nodes(sp) if isinstance(n, ast.Call) and isinstance(n.func, ast.Attribute) and n.func.attr in ("imap", "map", "imap_unordered")]
